@@ -119,13 +119,13 @@ Proof.
     rewrite (zk_get_app_l _ _ _ _ E). exact Hq.
   - unfold zk_set in H. destruct (zk_get t p); [|discriminate]. injection H as <-.
     rewrite owner_of_set. exact Hq.
-  - unfold zk_delete in H. destruct (zk_get t p) eqn:Ep; [|discriminate]. injection H as <-.
+  - unfold zk_delete in H. destruct (zk_get t p) as [np|] eqn:Ep; [|discriminate]. injection H as <-.
     unfold owner_of in *. destruct (zk_get t q) as [n|] eqn:E; [|discriminate].
     unfold zk_get in *. rewrite (find_filter_found _ _ _ n E); [exact Hq|].
     apply negb_true_iff, Z.eqb_neq. intros Hpq.
-    assert (n_path n = q) by (apply find_some in E as [_ E]; lia).
-    assert (q = p) by congruence. subst q. rewrite Ep in E. injection E as ->.
-    rewrite Ep in Ho. cbn in Ho, Hq. congruence.
+    assert (Hnq : n_path n = q) by (apply find_some in E as [_ E]; lia).
+    rewrite <- Hnq, Hpq in E. rewrite Ep in E. injection E as ->. rewrite Ep in Ho.
+    cbn in Ho, Hq. congruence.
 Qed.
 
 Lemma expire_preserved t sid q sid' :
@@ -153,10 +153,6 @@ Definition Inv (s : state) : Prop :=
   (forall j c, nth_error (st_clients s) j = Some c -> c_sess c < st_next s) /\
   (forall j c, nth_error (st_clients s) j = Some c -> client_ok (st_zk s) c).
 
-Definition safe_obs (o : obs) : Prop :=
-  (mutating (o_op o) = true -> o_ok o = true /\ o_owner o = Some (o_sess o)) /\
-  (o_op o = OCreate -> o_ok o = true -> o_owner o = None /\ o_owner_after o = Some (o_sess o)) /\
-  (o_op o = OSet -> o_owner_after o = o_owner o).
 
 Lemma guarded_next_create rid app rest : guarded (next_create rid app rest) = None.
 Proof. destruct rest as [|[p d] rest]; reflexivity. Qed.
@@ -173,7 +169,7 @@ Lemma safe_obs_read i c t op p d ok rid app isdel retry :
   mutating op = false -> op <> OCreate -> safe_obs (mk_obs i c t t op p d ok rid app isdel retry).
 Proof.
   intros Hm Hc. unfold safe_obs, mk_obs; cbn. repeat split; intros; try congruence.
-  destruct op; cbn in *; congruence.
+  all: destruct op; cbn in *; congruence.
 Qed.
 
 Lemma client_step_spec i t c t' c' o :
@@ -414,10 +410,6 @@ Definition del_ok (c : client) : Prop :=
   | _ => True
   end.
 
-Definition reg_obs (o : obs) : Prop :=
-  (o_is_delete_req o = true -> o_reg o = Some (o_rid o)) /\
-  (o_op o = ODelete -> o_is_delete_req o = true) /\
-  (o_op o = OSet \/ o_op o = OCreate -> o_is_delete_req o = false).
 
 Definition Inv2 (s : state) : Prop := forall j c, nth_error (st_clients s) j = Some c -> del_ok c.
 
@@ -546,4 +538,17 @@ Proof.
   intros Hw Hr. split.
   - exact (proj1 (run_inv acts s s' os (wf_init_Inv s Hw) Hr)).
   - exact (proj1 (run_inv2 acts s s' os (wf_init_Inv2 s Hw) Hr)).
+Qed.
+
+Lemma thm_newer_kept s acts s' os j c app p rid1 rid2 :
+  wf_init s = true -> run s acts = Some (s', os) -> nth_error (st_clients s') j = Some c ->
+  pm_get (c_pmap c) app p = Some rid2 -> rid1 <> rid2 ->
+  ~ In p (pm_paths (c_pmap c) app rid1) /\
+  (forall rest q, c_pc (start c (RDelete rid1 app)) = PDelGet rid1 app q rest -> q <> p /\ ~ In p rest).
+Proof.
+  intros Hw Hr Hj Hg Hne. destruct (thm_reachable_inv _ _ _ _ Hw Hr) as [_ H2].
+  destruct (H2 _ _ Hj) as [Hn _]. pose proof (pm_paths_other _ _ _ _ _ Hn Hg Hne) as Hp.
+  split; [exact Hp|]. intros rest q Hs. cbn in Hs.
+  destruct (pm_paths (c_pmap c) app rid1) as [|x l]; cbn in Hs; [discriminate|]. injection Hs as -> ->.
+  split; [intros ->; apply Hp; left; reflexivity | intros Hin; apply Hp; right; exact Hin].
 Qed.
